@@ -310,6 +310,9 @@ def check_file(relpath):
     return None
 
 
+MATCHER_ROOTS = ['part-list', 'part-list', 'harmony', 'sound', 'credit', 'metronome', 'lyric', 'key', 'ornaments',
+                 'score-part', 'direction-type', 'score-partwise']
+
 REAL_FILES_QUICK = ['musicxml/parser/test_hello_world.xml',
                     'musicxml/tests/test_xmlelement/test_hello_world_expected.xml',
                     'musicxml/tests/test_xmlelement/test_minimum_score_expected.xml']
@@ -374,10 +377,15 @@ def run_shard(ctx, shard, acc):
         return
     if shard['mode'] == 'valid':
         def body(data):
-            inside = data.draw(st.integers(0, 5)) == 0
+            inside = data.draw(st.integers(0, 4)) == 0
             pool = names if inside else outside
-            el = data.draw(st.sampled_from(c08.ROOTS)) if (not inside and data.draw(st.integers(0, 2)) > 0) \
-                else data.draw(st.sampled_from(pool))
+            if inside and data.draw(st.integers(0, 1)):
+                # half of the inside-scope budget goes to the matcher types themselves: a regression there is only
+                # visible as a failing word that is NOT among the exactly enumerated known ones
+                el = data.draw(st.sampled_from(MATCHER_ROOTS))
+            else:
+                el = data.draw(st.sampled_from(c08.ROOTS)) if (not inside and data.draw(st.integers(0, 2)) > 0) \
+                    else data.draw(st.sampled_from(pool))
             flags = set()
             plan = draw_doc(data, el, data.draw(st.integers(1, 4)), flags, [60 if ctx.quick else 200], inside)
             if plan is None:
